@@ -12,6 +12,18 @@ class Rig(object):
     pass
 
 
+def _model_shuffle(lst):
+    """random order -> one fixed non-identity permutation (CrossHair would otherwise treat the RNG as an unbounded
+    source of nondeterminism); the properties only speak about the SET of results under random listing"""
+    lst.reverse()
+
+
+class _ModelRandom(object):
+    @staticmethod
+    def choice(seq):
+        return seq[len(seq) - 1]
+
+
 def build(cassette='mem', spy=False, fail_save=False, seed=None, draws=None, den=1, size=None):
     import playback.tape_recorder as trmod
     import playback.recording as recmod
@@ -32,6 +44,7 @@ def build(cassette='mem', spy=False, fail_save=False, seed=None, draws=None, den
         import playback.tape_cassettes.in_memory.in_memory_tape_cassette as m
         if not ctx.REAL:
             m.uuid = ids
+            m.shuffle = _model_shuffle
         cas = m.InMemoryTapeCassette()
     elif cassette == 'file':
         import playback.tape_cassettes.file_based.file_based_tape_cassette as m
@@ -47,6 +60,9 @@ def build(cassette='mem', spy=False, fail_save=False, seed=None, draws=None, den
     elif cassette == 's3':
         from pbsym.models import s3env
         env = s3env.install(ids=ids, size=size)
+        if not ctx.REAL:
+            env.fac.shuffle = _model_shuffle
+            env.s3m.random = _ModelRandom
         rig.s3 = env
         rig.stubs += env.stubs
         from playback.tape_cassettes.s3.s3_tape_cassette import S3TapeCassette
